@@ -111,6 +111,28 @@ theorem good_getAndUpdate {c : Cfg} {s s' : State} (h : simple c s .getAndUpdate
         · obtain ⟨z1, z2⟩ := a4 hz
           exact LN_cons.mpr ⟨o3 z2, z1⟩
 
+theorem insertAtom_perm (k : Atom) : ∀ xs : List Atom, (insertAtom k xs).Perm (k :: xs)
+  | [] => List.Perm.refl _
+  | x :: xs => by
+    simp only [insertAtom]
+    split
+    · exact List.Perm.refl _
+    · exact (List.Perm.cons x (insertAtom_perm k xs)).trans (List.Perm.swap k x xs)
+
+theorem setAdd_nodup {k : Atom} {xs : List Atom} (h : xs.Nodup) : (setAdd k xs).Nodup := by
+  unfold setAdd
+  split
+  · exact h
+  · rename_i hc
+    have hk : k ∉ xs := by simpa using hc
+    exact (insertAtom_perm k xs).nodup_iff.mpr (List.nodup_cons.mpr ⟨hk, h⟩)
+
+theorem setAdd_mem {k a : Atom} {xs : List Atom} (h : a ∈ setAdd k xs) : a = k ∨ a ∈ xs := by
+  unfold setAdd at h
+  split at h
+  · exact Or.inr h
+  · exact List.mem_cons.mp ((insertAtom_perm k xs).mem_iff.mp h)
+
 theorem good_update {c : Cfg} {s s' : State} (h : simple c s .update = some (.ok s')) : Good s s' := by
   simp only [simple, Option.some.injEq] at h
   cases hp : s.pop3 with
@@ -118,25 +140,94 @@ theorem good_update {c : Cfg} {s s' : State} (h : simple c s .update = some (.ok
   | ok x =>
     obtain ⟨key, val, src, s1⟩ := x
     simp only [hp, bind, Except.bind] at h
-    cases src <;> simp only [reduceCtorEq] at h
-    rename_i big kt vt keys vals removed
-    cases hov : optOf val with
-    | none => simp [hov] at h
-    | some ov =>
-      simp only [hov] at h
-      cases hu : mapUpdate c big kt vt keys vals removed key ov with
-      | error e => simp [hu] at h
-      | ok pd =>
-        obtain ⟨prev, dst⟩ := pd
-        simp only [hu, pure, Except.pure, Except.ok.injEq] at h
-        subst h
-        refine Good.popPush [key, val, .map big kt vt keys vals removed] [dst] [] (storeOk vt ov) (pop3_spec hp)
-          (push_perm _ _) rfl rfl rfl ?_
-        intro hst hc
-        obtain ⟨⟨a1, _⟩, a3, a4⟩ := update_vals hov hu hst hc
-        refine ⟨a1, fun k => ?_, fun hz => (a4 hz).1⟩
-        have := a3 k
-        simp only [LS_cons, LS_nil, mintedSum] at this ⊢; omega
+    cases src with
+    | map big kt vt keys vals removed =>
+      simp only at h
+      cases hov : optOf val with
+      | none => simp [hov] at h
+      | some ov =>
+        simp only [hov] at h
+        cases hu : mapUpdate c big kt vt keys vals removed key ov with
+        | error e => simp [hu] at h
+        | ok pd =>
+          obtain ⟨prev, dst⟩ := pd
+          simp only [hu, pure, Except.pure, Except.ok.injEq] at h
+          subst h
+          refine Good.popPush [key, val, .map big kt vt keys vals removed] [dst] [] (storeOk vt ov) (pop3_spec hp)
+            (push_perm _ _) rfl rfl rfl ?_
+          intro hst hc
+          obtain ⟨⟨a1, _⟩, a3, a4⟩ := update_vals hov hu hst hc
+          refine ⟨a1, fun k => ?_, fun hz => (a4 hz).1⟩
+          have := a3 k
+          simp only [LS_cons, LS_nil, mintedSum] at this ⊢; omega
+    | set t xs =>
+      simp only at h
+      match val, h with
+      | .atom (.bool b), h =>
+        simp only at h
+        split at h
+        · cases h
+        · match key, h with
+          | .atom k, h =>
+            simp only [pure, Except.pure, Except.ok.injEq] at h
+            subst h
+            refine Good.popPush [.atom k, .atom (.bool b), .set t xs] [.set t _] [] true (pop3_spec hp)
+              (push_perm _ _) rfl (by simp [push_typed]) rfl ?_
+            intro _ hc
+            have hcs := (LC_cons.mp (LC_cons.mp (LC_cons.mp hc).2).2).1
+            simp only [Val.consistent, nodupB_iff] at hcs
+            refine ⟨LC_cons.mpr ⟨?_, LC_nil⟩, fun k' => by simp [LS_cons, LS_nil, ticketSum], fun _ => LN_cons.mpr ⟨by simp [noZero], LN_nil⟩⟩
+            simp only [Val.consistent, nodupB_iff]
+            cases b
+            · exact hcs.sublist List.filter_sublist
+            · exact setAdd_nodup hcs
+    | atom _ => simp at h
+    | ticket _ _ _ _ => simp at h
+    | pair _ _ => simp at h
+    | none _ => simp at h
+    | some _ => simp at h
+    | list _ _ => simp at h
+    | left _ _ => simp at h
+    | right _ _ => simp at h
+    | lam _ _ _ => simp at h
+
+theorem good_mem {c : Cfg} {s s' : State} (h : simple c s .mem = some (.ok s')) : Good s s' := by
+  simp only [simple, Option.some.injEq] at h
+  cases hp : s.pop2 with
+  | error e => simp [hp, bind, Except.bind] at h
+  | ok x =>
+    obtain ⟨key, src, s1⟩ := x
+    simp only [hp, bind, Except.bind] at h
+    have fin : ∀ b : Bool, s' = s1.push (.atom (.bool b)) → Good s s' := by
+      intro b hb; subst hb
+      refine Good.popPush [key, src] [.atom (.bool b)] [] true (pop2_spec hp) (push_perm _ _) rfl (by simp [push_typed]) rfl ?_
+      intro _ _
+      exact ⟨LC_cons.mpr ⟨rfl, LC_nil⟩, fun k => by simp [LS_cons, LS_nil, ticketSum], fun _ => LN_cons.mpr ⟨rfl, LN_nil⟩⟩
+    cases src with
+    | set t xs =>
+      simp only at h
+      split at h
+      · cases h
+      · match key, h with
+        | .atom k, h =>
+          simp only [pure, Except.pure, Except.ok.injEq] at h
+          exact fin _ h.symm
+    | map big kt vt keys vals removed =>
+      simp only at h
+      cases hg : mapGet c big kt vt keys vals removed key false with
+      | error e => simp [hg] at h
+      | ok r =>
+        simp only [hg, pure, Except.pure, Except.ok.injEq] at h
+        exact fin _ h.symm
+    | atom _ => simp at h
+    | ticket _ _ _ _ => simp at h
+    | pair _ _ => simp at h
+    | none _ => simp at h
+    | some _ => simp at h
+    | list _ _ => simp at h
+    | left _ _ => simp at h
+    | right _ _ => simp at h
+    | lam _ _ _ => simp at h
 
 /-- every instruction handled by `simple` is a `Good` step -/
 theorem simple_good {c : Cfg} (ok : CfgOk c) {s s' : State} (i : Instr) (h : simple c s i = some (.ok s')) : Good s s' := by
@@ -161,6 +252,14 @@ theorem simple_good {c : Cfg} (ok : CfgOk c) {s s' : State} (i : Instr) (h : sim
   | get => exact good_get h
   | getAndUpdate => exact good_getAndUpdate h
   | update => exact good_update h
+  | left t => exact good_left t h
+  | right t => exact good_right t h
+  | emptySet t => exact good_emptySet t h
+  | mem => exact good_mem h
+  | lambda a b body => exact good_lambda a b body h
+  | apply => exact good_apply h
+  | exec => simp [simple] at h
+  | ifLeft _ _ => simp [simple] at h
   | failwith => simp [simple] at h
   | ifNone _ _ => simp [simple] at h
   | iter _ => simp [simple] at h
